@@ -219,6 +219,35 @@ def rule_R9(text, fired):
     return text
 
 
+# ---- R10: C pointers (C17 only) ------------------------------------------------------------------
+def rule_R10(text, fired):
+    """`unsafe extern "C" fn f(p: *mut Value, q: *const Value)`: a handle the body mutates through `p.as_mut()` becomes
+    `&mut Value` (and `p.as_mut()` -> `Some(p)`); a handle only read through `q.as_ref()` becomes `Option<&Value>` (and
+    `q.as_ref()` -> `q`).  This turns the ownership protocol of the C API into a type: every non-null handle is live and
+    unaliased; a mutated handle is non-null."""
+    m = re.search(r'\bfn\s+\w+\s*\((.*?)\)\s*(->|\{)', text, flags=re.S)
+    if not m:
+        return text
+    params = m.group(1)
+    new_params = params
+    for pm in re.finditer(r'(\w+)\s*:\s*\*\s*(mut|const)\s+(\w+)', params):
+        name, _kind, ty = pm.group(1), pm.group(2), pm.group(3)
+        body = text[m.end():]
+        if re.search(r'\b' + name + r'\s*\.\s*as_mut\(\)', body):
+            new_params = new_params.replace(pm.group(0), f'{name}: &mut {ty}')
+            text = re.sub(r'\b' + name + r'\s*\.\s*as_mut\(\)', f'Some({name})', text)
+        elif re.search(r'\b' + name + r'\s*\.\s*as_ref\(\)', body):
+            new_params = new_params.replace(pm.group(0), f'{name}: Option<&{ty}>')
+            text = re.sub(r'\b' + name + r'\s*\.\s*as_ref\(\)', name, text)
+        else:
+            raise Refuse(f'R10: pointer parameter {name} is used in a way the rule does not cover')
+        _count(fired, 'R10')
+    text = text.replace(params, new_params, 1)
+    text, n = re.subn(r'\bunsafe\s+extern\s+"C"\s+fn\b', 'fn', text)
+    _count(fired, 'R10', n)
+    return text
+
+
 # ---- R13: string slicing ---------------------------------------------------------------------
 def rule_R13(text, fired):
     # E[a..b] / E[a..] on a str/String place; E is a field path or identifier
@@ -269,6 +298,7 @@ def rule_R15(text, fired):
 
 
 RULES = {
+    'R10': rule_R10,
     'R6b': rule_R6b,
     'R16': rule_R16,
     'R15': rule_R15,
@@ -280,7 +310,7 @@ RULES = {
     'R9': rule_R9,
     'R13': rule_R13,
 }
-ORDER = ['R2', 'R9', 'R6b', 'R6', 'R7', 'R13', 'R14', 'R15', 'R16', 'R5']
+ORDER = ['R10', 'R2', 'R9', 'R6b', 'R6', 'R7', 'R13', 'R14', 'R15', 'R16', 'R5']
 
 
 def apply_rules(text, active, fired, extra_subs=()):
